@@ -17,7 +17,17 @@ read/write) and can be wrapped by a fault plan.
 Fault plan: object with optional methods
     on_read(handle, n_request, offset, length)  -> None (normal) | ("short", k) | ("error", code) | ("data", bytes)
     on_write(handle, n_request, offset, data)   -> None (normal) | ("error", code) | ("drop",)  [drop = say OK, write nothing]
-Counters are per environment (n_request counts reads / writes separately from 0).
+    on_call(where, op, n_call, args)            -> None (normal) | ("error", code) | ("raise", errno)
+        where = "handle": op in close / stat / chattr                       (args = the handle [, attr])
+        where = "iface":  op in list_folder / stat / lstat / open / remove / rename / posix_rename / mkdir / rmdir /
+                          chattr / readlink / symlink                       (args = the call's arguments)
+        "error": the method returns that SFTP error code and does nothing else; "raise": it raises OSError(errno)
+        instead.  handle close: the underlying file IS closed, then OSError is raised (a flush that fails; close has
+        no return value, so "error" means nothing there and is ignored).
+    on_read / on_write may also return ("raise", errno).
+Counters are per environment (n_request counts reads / writes separately from 0; n_call counts the calls of each
+(where, op) pair from 0). Every hook is optional; a plan without `on_call` leaves all of the above untouched.
+Faults that fired are recorded in env.server_log as (n_call, "fault", (where, op, kind)).
 """
 import os
 import socket
@@ -105,6 +115,43 @@ class ChanLike:
         return self._s.fileno()
 
 
+def _take_fault(env, where, op, args):
+    """Ask the fault plan's optional `on_call` hook about this call; returns None or the action tuple."""
+    if env is None:
+        return None
+    key = (where, op)
+    n = env.n_calls.get(key, 0)
+    env.n_calls[key] = n + 1
+    plan = env.fault_plan
+    if plan is None or not hasattr(plan, "on_call"):
+        return None
+    act = plan.on_call(where, op, n, args)
+    if act is not None:
+        if act[0] not in ("error", "raise"):
+            raise AssertionError(act)
+        env.server_log.append((n, "fault", (where, op, act[0])))
+    return act
+
+
+def _with_faults(where, op):
+    """Decorator for interface / handle methods: consult the fault plan before doing the real work."""
+
+    def deco(fn):
+        def method(self, *a):
+            act = _take_fault(self.env, where, op, (self,) + a if where == "handle" else a)
+            if act is not None:
+                if act[0] == "error":
+                    return act[1]
+                raise OSError(act[1], os.strerror(act[1]))
+            return fn(self, *a)
+
+        method.__name__ = fn.__name__
+        method.__doc__ = fn.__doc__
+        return method
+
+    return deco
+
+
 def make_server_classes():
     """Build the harness server-interface classes lazily (paramiko must be importable)."""
     from paramiko import SFTPAttributes, SFTPHandle, SFTPServer, SFTPServerInterface, SFTP_OK, SFTP_FAILURE
@@ -113,12 +160,20 @@ def make_server_classes():
     class Handle(SFTPHandle):
         env = None  # set per instance
 
+        def close(self):
+            act = _take_fault(self.env, "handle", "close", (self,))
+            SFTPHandle.close(self)
+            if act is not None and act[0] == "raise":
+                raise OSError(act[1], os.strerror(act[1]))
+
+        @_with_faults("handle", "stat")
         def stat(self):
             try:
                 return SFTPAttributes.from_stat(os.fstat(self.readfile.fileno()))
             except OSError as e:
                 return SFTPServer.convert_errno(e.errno)
 
+        @_with_faults("handle", "chattr")
         def chattr(self, attr):
             try:
                 SFTPServer.set_file_attr(self.filename, attr)
@@ -153,6 +208,8 @@ def make_server_classes():
                 return act[1]
             if act[0] == "data":
                 return act[1]
+            if act[0] == "raise":
+                raise OSError(act[1], os.strerror(act[1]))
             raise AssertionError(act)
 
         def write(self, offset, data):
@@ -169,6 +226,8 @@ def make_server_classes():
                 return act[1]
             if act[0] == "drop":
                 return SFTP_OK
+            if act[0] == "raise":
+                raise OSError(act[1], os.strerror(act[1]))
             raise AssertionError(act)
 
     class Iface(SFTPServerInterface):
@@ -183,6 +242,7 @@ def make_server_classes():
         def _realpath(self, path):
             return self.ROOT + self.canonicalize(path)
 
+        @_with_faults("iface", "list_folder")
         def list_folder(self, path):
             path = self._realpath(path)
             try:
@@ -195,18 +255,21 @@ def make_server_classes():
             except OSError as e:
                 return SFTPServer.convert_errno(e.errno)
 
+        @_with_faults("iface", "stat")
         def stat(self, path):
             try:
                 return SFTPAttributes.from_stat(os.stat(self._realpath(path)))
             except OSError as e:
                 return SFTPServer.convert_errno(e.errno)
 
+        @_with_faults("iface", "lstat")
         def lstat(self, path):
             try:
                 return SFTPAttributes.from_stat(os.lstat(self._realpath(path)))
             except OSError as e:
                 return SFTPServer.convert_errno(e.errno)
 
+        @_with_faults("iface", "open")
         def open(self, path, flags, attr):
             path = self._realpath(path)
             try:
@@ -235,6 +298,7 @@ def make_server_classes():
             fobj.writefile = f
             return fobj
 
+        @_with_faults("iface", "remove")
         def remove(self, path):
             try:
                 os.remove(self._realpath(path))
@@ -242,6 +306,7 @@ def make_server_classes():
                 return SFTPServer.convert_errno(e.errno)
             return SFTP_OK
 
+        @_with_faults("iface", "rename")
         def rename(self, oldpath, newpath):
             oldpath, newpath = self._realpath(oldpath), self._realpath(newpath)
             if os.path.exists(newpath):
@@ -252,6 +317,7 @@ def make_server_classes():
                 return SFTPServer.convert_errno(e.errno)
             return SFTP_OK
 
+        @_with_faults("iface", "posix_rename")
         def posix_rename(self, oldpath, newpath):
             try:
                 os.rename(self._realpath(oldpath), self._realpath(newpath))
@@ -259,6 +325,7 @@ def make_server_classes():
                 return SFTPServer.convert_errno(e.errno)
             return SFTP_OK
 
+        @_with_faults("iface", "mkdir")
         def mkdir(self, path, attr):
             path = self._realpath(path)
             try:
@@ -269,6 +336,7 @@ def make_server_classes():
                 return SFTPServer.convert_errno(e.errno)
             return SFTP_OK
 
+        @_with_faults("iface", "rmdir")
         def rmdir(self, path):
             try:
                 os.rmdir(self._realpath(path))
@@ -276,6 +344,7 @@ def make_server_classes():
                 return SFTPServer.convert_errno(e.errno)
             return SFTP_OK
 
+        @_with_faults("iface", "chattr")
         def chattr(self, path, attr):
             try:
                 SFTPServer.set_file_attr(self._realpath(path), attr)
@@ -283,6 +352,7 @@ def make_server_classes():
                 return SFTPServer.convert_errno(e.errno)
             return SFTP_OK
 
+        @_with_faults("iface", "readlink")
         def readlink(self, path):
             try:
                 target = os.readlink(self._realpath(path))
@@ -295,6 +365,7 @@ def make_server_classes():
                     target = "<error>"
             return target
 
+        @_with_faults("iface", "symlink")
         def symlink(self, target_path, path):
             path = self._realpath(path)
             if target_path.startswith("/"):
@@ -320,6 +391,7 @@ class SftpEnv:
         self.server_log = []
         self.n_reads = 0
         self.n_writes = 0
+        self.n_calls = {}  # (where, op) -> number of calls so far (see on_call)
         self._last_read_key = None
         self._same_reads = 0
         self._sessions = []
